@@ -571,8 +571,8 @@ int main(int argc, char** argv) {
   const bool T = c.thorough();
   struct Cfg { int K, nv; };
   // ---------------- AArch64 ----------------
-  std::vector<Cfg> acfg = {{0, 6}, {6, 5}, {6, 8}};
-  if (T) { acfg.push_back({8, 7}); acfg.push_back({5, 5}); acfg.push_back({0, 34}); }
+  std::vector<Cfg> acfg = {{0, 6}, {6, 5}, {6, 8}, {5, 5}};
+  if (T) { acfg.push_back({8, 7}); acfg.push_back({7, 9}); acfg.push_back({0, 34}); }
   std::vector<int> aforms, xforms; for (int i = 0; i < kFormCount; i++) (kForms[i].arch == 2 ? aforms : xforms).push_back(i);
   // (A) one list instruction, EVERY tuple of list members over the first 5 values (incl. the same register twice), straight line;
   //     tbl/tbx: destination in {first member, last value} x index in {last member, last value}
@@ -595,16 +595,16 @@ int main(int argc, char** argv) {
   }
   // (C) two (thorough: also three) list instructions: overlapping / conflicting lists across instructions, all shapes
   std::vector<int> f2;
-  for (const char* nm : {"ld2.4s", "ld3.4s", "ld4.4s", "st2.4s", "st3.4s", "st4.4s", "tbl3", "tbx2", "ld2lane.s"}) f2.push_back(form_by_name(nm));
-  if (T) for (const char* nm : {"ld1x3.4s", "st1x4.4s", "tbl4", "tbx3", "ld2r.4s", "st2.2s", "ld2.2s"}) f2.push_back(form_by_name(nm));
+  for (const char* nm : {"ld2.4s", "ld3.4s", "ld4.4s", "st2.4s", "st3.4s", "st4.4s", "tbl3", "tbx2", "ld2lane.s", "ld1x3.4s", "st1x4.4s", "tbl4"}) f2.push_back(form_by_name(nm));
+  if (T) for (const char* nm : {"tbx3", "ld2r.4s", "st2.2s", "ld2.2s", "ld3lane.s", "st2lane.s", "tbl2", "tbx4"}) f2.push_back(form_by_name(nm));
   for (const Cfg& cf : acfg) {
     if (cf.nv > 8) continue;
     int M = std::min(cf.nv, 5);
     std::vector<Spec> specs;
     for (int f : f2) for (auto& t : patterns(kForms[f].n, M, T)) { Spec sp; sp.form = f; sp.sel = t; if (kForms[f].table) { sp.d = t[0]; sp.m = cf.nv - 1; } specs.push_back(sp); }
     for (int sh = 0; sh < 3; sh++) for (auto& a : specs) for (auto& b : specs) { Desc d; d.arch = 2; d.K = cf.K; d.nv = cf.nv; d.shape = sh; d.insts = {a, b}; run_desc(d); }
-    if (T && cf.K == 6 && cf.nv == 5) {
-      std::vector<Spec> s3; for (auto& s : specs) { const char* nm = kForms[s.form].name; if (!strcmp(nm, "ld2.4s") || !strcmp(nm, "st3.4s") || !strcmp(nm, "ld4.4s") || !strcmp(nm, "tbl3")) s3.push_back(s); }
+    if (T && ((cf.K == 6 && cf.nv == 5) || (cf.K == 0 && cf.nv == 6) || (cf.K == 6 && cf.nv == 8))) {
+      std::vector<Spec> s3; for (auto& s : specs) { const char* nm = kForms[s.form].name; if (!strcmp(nm, "ld2.4s") || !strcmp(nm, "st3.4s") || !strcmp(nm, "ld4.4s") || !strcmp(nm, "tbl3") || !strcmp(nm, "tbx2")) s3.push_back(s); }
       for (int sh = 0; sh < 3; sh++) for (auto& a : s3) for (auto& b : s3) for (auto& e : s3) { Desc d; d.arch = 2; d.K = cf.K; d.nv = cf.nv; d.shape = sh; d.insts = {a, b, e}; run_desc(d); }
     }
   }
@@ -623,8 +623,8 @@ int main(int argc, char** argv) {
   if (g_dry) { printf("programs in this tier: %lld\n", g_idx); return 0; }
   c.n("states") = c.n("evaluations");
   c.n("transitions") = c.n("traces");
-  c.strs["lists_bound"] = T ? "lists leg: AArch64 vector file {full, 5, 6, 8} x values {5..8, 34}; one list instruction: every member tuple over the first 5 values x all forms; two list instructions: 16 forms x 7 patterns squared x 3 shapes; three: 4 forms; x86-64 mask file {full, 4} x masks {3,6,8}, 1..3 vp2intersect"
-                            : "lists leg: AArch64 vector file {full, 6} x values {5,6,8}; one list instruction: every member tuple over the first 5 values x all forms (straight) + patterns in diamond/loop; two list instructions: 9 forms x 5 patterns squared x 3 shapes; x86-64 mask file {full, 4} x masks {3,6,8}, 1..2 vp2intersect";
+  c.strs["lists_bound"] = T ? "lists leg: AArch64 vector file {full, 5, 6, 7, 8} x values {5..9, 34}; one list instruction: every member tuple over the first 5 values x all 35 forms (tbl/tbx: destination {member, other} x index {member, other}); two list instructions: 20 forms x 7 selection patterns, squared, x 3 shapes; three list instructions: 5 forms x 7 patterns, cubed, x 3 shapes x 3 configurations; x86-64 mask file {full, 4} x masks {3,6,8}, 1..3 vp2intersectd/q (every pair tuple incl. the same mask twice)"
+                            : "lists leg: AArch64 vector file {full, 5, 6} x values {5,6,8}; one list instruction: every member tuple over the first 5 values x all 35 forms (straight) + selection patterns in diamond/loop; two list instructions: 12 forms x 5 selection patterns, squared, x 3 shapes; x86-64 mask file {full, 4} x masks {3,6,8}, 1..2 vp2intersectd/q (every pair tuple incl. the same mask twice)";
   c.strs["lists_rule"] = "register-list programs = arch{AArch64, x86-64} x register file x number of values x shape{straight, diamond, loop} x 1..3 list instructions (ld1..ld4, ld2r/ld4r, lane forms, st1..st4, tbl/tbx 1..4, vp2intersectd/q) x member tuples "
                          "(incl. one register twice, reversed/rotated/overlapping lists, a member that is also destination or index); oracle = uninterpreted-term simulation of the allocated node list against the IR (roles from the ISA database): "
                          "lists consecutive, every original instruction reads the reference terms, final memory equal, callee-saved registers preserved, unsatisfiable lists reported as errors";
